@@ -142,8 +142,14 @@ def check(P: Project, R: Report) -> None:
         if ok:
             key = evs[0][4:evs[0].index("]=")]
             val = evs[0][evs[0].index("]=") + 2:]
-            kdef = an.defs.get(key, ("", None))[0]
             vdef_node = an.defs.get(val, ("", None))[1]
+            # the key may be read back from the record just built (`self.sessions[rec.session_id] = rec`): the same value
+            if key == f"{val}.session_id" and isinstance(vdef_node, ast.Call):
+                kw = {k.arg: k.value for k in vdef_node.keywords if k.arg}
+                k0 = kw.get("session_id") or (vdef_node.args[0] if vdef_node.args else None)
+                if k0 is not None:
+                    key = subst_text(k0, st)
+            kdef = an.defs.get(key, ("", None))[0]
             ret = subst_text(node.value, st) if node.value is not None else "None"
             ok_key = "generate_session_id()" in kdef
             ok_ret = ret == key
